@@ -52,6 +52,7 @@ func init() {
 	register("gw", "smoke", true, func(t *testing.T, r *sim.Run) { gw.PreBubble(); inBubble(t, true, func() { gw.RunSmoke(r) }) })
 	register("rl", "c07", true, func(t *testing.T, r *sim.Run) { inBubble(t, true, func() { rl.RunC07(r) }) })
 	register("rl", "c13", true, func(t *testing.T, r *sim.Run) { inBubble(t, true, func() { rl.RunC13(r) }) })
+	register("rl", "c18", true, func(t *testing.T, r *sim.Run) { inBubble(t, true, func() { rl.RunC18(r) }) })
 	register("rlstub", "c09", true, func(t *testing.T, r *sim.Run) { inBubble(t, true, func() { rl.RunC09(r) }) })
 	register("store", "c19", true, func(t *testing.T, r *sim.Run) { inBubble(t, true, func() { store.RunC19(r) }) })
 	register("tb", "c06", false, func(t *testing.T, r *sim.Run) { inBubble(t, false, func() { tb.RunC06(r) }) })
